@@ -98,6 +98,18 @@ func enumerateHistories(thorough bool, emit func(Case)) (pairs, triples int64) {
 		}
 		return false
 	}
+	// a call without options makes its repository slot irrelevant unless a file lives there, so different
+	// tuples can denote the same history: every history is emitted once (same order in every worker)
+	seen := map[uint64]bool{}
+	emitOnce := func(c Case) bool {
+		h := core.Hash64(c.canon())
+		if seen[h] {
+			return false
+		}
+		seen[h] = true
+		emit(c)
+		return true
+	}
 	mk := func(repos []string, os []opt, hs []int) Case {
 		c := Case{Path: pHistory, Kind: "chart", Redirect: "none"}
 		for i := range os {
@@ -124,8 +136,9 @@ func enumerateHistories(thorough bool, emit func(Case)) (pairs, triples int64) {
 							if dup(repos, h1) || dup(repos, h2) {
 								continue
 							}
-							emit(mk(repos, []opt{o1, o2}, []int{h1, h2}))
-							pairs++
+							if emitOnce(mk(repos, []opt{o1, o2}, []int{h1, h2})) {
+								pairs++
+							}
 						}
 					}
 				}
@@ -149,8 +162,9 @@ func enumerateHistories(thorough bool, emit func(Case)) (pairs, triples int64) {
 										if dup(repos, h1) || dup(repos, h2) || dup(repos, h3) {
 											continue
 										}
-										emit(mk(repos, []opt{o1, o2, o3}, []int{h1, h2, h3}))
-										triples++
+										if emitOnce(mk(repos, []opt{o1, o2, o3}, []int{h1, h2, h3})) {
+											triples++
+										}
 									}
 								}
 							}
